@@ -18,6 +18,14 @@ def doc_text(rng, lang, broken=False):
         t = langgen.integer_program(rng, nlines=rng.choice([1, 3, 8]))
     else:
         t = langgen.merlin_source(rng, nlines=rng.choice([2, 10, 40]))
+        # state an analysis may leave behind for the next one: processor selection, register widths, macros named like instructions,
+        # conditional assembly left open, equates
+        r = rng.random()
+        if r < 0.5:
+            head = rng.choice([' XC\n', ' XC\n XC\n', ' XC OFF\n', ' XC\n XC\n MX %00\n', 'BRA MAC\n JMP ]1\n <<<\n', 'PHX MAC\n TXA\n PHA\n <<<\n', ' DO 0\n', 'VAL EQU $10\n', ' LST OFF\n'])
+            t = head + t
+        if rng.random() < 0.5:
+            t += ''.join(rng.choice([' BRA L0\n', ' PHX\n', ' STZ $10\n', ' LDA ($10)\n', ' REP #$30\n', ' PHB\n', ' LDA #VAL\n', ' BRA $0300\n', ' INC\n', ' FIN\n']) for _ in range(rng.randrange(1, 5)))
     if broken:
         k = rng.random()
         if k < 0.3 and t:
@@ -63,9 +71,30 @@ def scenario(seed, lang):
     return steps, ','.join(items)
 
 
+MAC_BRA = "BRA MAC\n JMP ]1\n <<<\n ORG $300\n BRA DONE\n PHX\nDONE RTS\n"
+WITH_XC = " XC\n ORG $300\n LDA #1\n BRA SKIP\n STZ $10\nSKIP RTS\n"
+WITH_XC2 = " XC\n XC\n ORG $300\n MX %00\n LDA #$1234\n REP #$30\n RTL\n"
+PLAIN = " ORG $300\n LDA #1\n STA $10\n RTS\n"
+U0, U1 = 'file:///verif/fix0.S', 'file:///verif/fix1.S'
+# what one analysis leaves behind must not colour the next: processor selection, register widths, macros, conditionals
+FIXED = {
+ -1: ('merlin', [('open', U0, 1, WITH_XC, 0.3), ('open', U1, 1, MAC_BRA, 0.3)]),
+ -2: ('merlin', [('open', U0, 1, WITH_XC, 0.3), ('change', U0, 2, MAC_BRA, 0.3)]),
+ -3: ('merlin', [('open', U0, 1, WITH_XC2, 0.3), ('change', U0, 2, " ORG $300\n LDA #$12\n RTS\n", 0.3), ('open', U1, 1, PLAIN, 0.2)]),
+ -4: ('merlin', [('open', U0, 1, " DO 0\n LDA #1\n", 0.3), ('open', U1, 1, PLAIN, 0.3), ('change', U0, 2, PLAIN, 0.2)]),
+ -5: ('merlin', [('open', U0, 1, MAC_BRA, 0.3), ('change', U0, 2, " ORG $300\n BRA L\nL RTS\n", 0.3)]),
+ -6: ('applesoft', [('open', 'file:///verif/fix0.bas', 1, '10 COUNT = 1: COUNTER = 2\n20 GOTO 99\n', 0.3), ('change', 'file:///verif/fix0.bas', 2, '10 PRINT "OK"\n', 0.3)]),
+ -7: ('integerbasic', [('open', 'file:///verif/fix0.bas', 1, '10 DIM A$(10): GOTO 99\n', 0.3), ('change', 'file:///verif/fix0.bas', 2, '10 PRINT A$\n', 0.3)]),
+}
+
+
 def one(args):
     seed, lang = args
-    steps, delays = scenario(seed, lang)
+    if seed < 0:
+        lang, steps = FIXED[seed]
+        delays = ''
+    else:
+        steps, delays = scenario(seed, lang)
     binname, lang_id = SERVERS[lang]
     obs = lspdrv.run_history(binpath(binname), lang_id, steps, delays)
     if 'error' in obs:
@@ -88,9 +117,9 @@ def one(args):
     if not fails:
         for u, last in obs['last_sent'].items():
             final_text = [t for k, uu, v, t, g in steps if uu == u][-1]
-            # other documents may matter to the analysis (Merlin workspace): give the fresh server the same final set
-            fsteps = [('open', uu, obs['last_sent'][uu], [t for k, u2, v, t, g in steps if u2 == uu][-1], 0.3) for uu in obs['last_sent'] if uu != u]
-            fsteps.append(('open', u, last, final_text, 0))
+            # "what analysing that final text alone produces": a fresh server that has seen nothing but this text (the generated
+            # documents do not refer to each other, so no other document may influence the result)
+            fsteps = [('open', u, last, final_text, 0)]
             ref = lspdrv.run_history(binpath(binname), lang_id, fsteps, '', settle=0.3)
             rd = [d for uu, v, d in ref.get('publishes', []) if uu == u]
             if not rd:
@@ -139,7 +168,7 @@ def run(ctx, model_ok=True):
     rng = ctx.rng
     astats = analyzer_stream(ctx, quick)
     n = 8 if quick else 120
-    jobs = []
+    jobs = [(k, v[0]) for k, v in FIXED.items()]
     for lang in SERVERS:
         for i in range(n):
             jobs.append((rng.randrange(1 << 30), lang))
